@@ -209,3 +209,60 @@ def small_bodies_are_charged(ctx):
     ctx.ob(c, 'consume(self._bytes_seen, self._request_token)', ok, 'the amount charged must be the bytes seen, with the stream\'s own token')
     rs = [n for n in own_nodes(c.node) if isinstance(n, ast.Assign) and dotted(n.targets[0]) == 'self._bytes_seen' and norm(n.value) == '0']
     ctx.ob(c, 'self._bytes_seen = 0 after a granted consume', len(rs) == 1 and any(field == 'body' for _, field in q.enclosing_trys(rs[0])), 'charged bytes must not be charged again')
+
+
+@rule('C13.e', ['C13'], floor=4)
+def scheduler_accounting_is_paired(ctx):
+    """ConsumptionScheduler: the amount schedule_consumption adds to _total_wait is stored
+    in the token's record under a key, and process_scheduled_consumption subtracts exactly
+    that entry of the popped record (clamped at 0); the wait returned to the caller is the
+    accumulated total; the stream sleeps exactly the advised retry_time before it
+    re-consumes (a retry releases the scheduled request whatever time has passed)."""
+    sc = ctx.func('bandwidth.ConsumptionScheduler.schedule_consumption')
+    adds = [n for n in own_nodes(sc.node) if isinstance(n, ast.AugAssign) and dotted(n.target) == 'self._total_wait' and isinstance(n.op, ast.Add)]
+    ctx.ob(sc, 'self._total_wait += time_to_consume', len(adds) == 1 and isinstance(adds[0].value, ast.Name) and adds[0].value.id in sc.params and not q.guards(adds[0]),
+           'each scheduled request must add its own share to the accumulated wait')
+    amount = adds[0].value.id if adds and isinstance(adds[0].value, ast.Name) else None
+    recs = [n for n in own_nodes(sc.node) if isinstance(n, ast.Assign) and isinstance(n.targets[0], ast.Subscript) and norm(n.targets[0].value) == 'self._tokens_to_scheduled_consumption'
+            and isinstance(n.value, ast.Dict)]
+    key = None
+    if len(recs) == 1:
+        for k, v in zip(recs[0].value.keys, recs[0].value.values):
+            if isinstance(k, ast.Constant) and norm(v) == amount:
+                key = k.value
+    ctx.ob(sc, f'the share is recorded in the token record (key {key!r})', key is not None and norm(recs[0].targets[0].slice) == sc.params[2] if recs else False,
+           'the record must remember how much this request added')
+    rets = [norm(x.value) for x in own_nodes(sc.node) if isinstance(x, ast.Return)]
+    g = ctx.cfg(sc)
+    ok = rets == ['self._total_wait'] and bool(adds) and g.all_dominate(g.nodes_of(adds[0]), [n for x in own_nodes(sc.node) if isinstance(x, ast.Return) for n in g.nodes_of(x)], g.NORMAL)
+    ctx.ob(sc, 'returns the accumulated wait (after adding its share)', ok, 'a request must wait for everything scheduled before it plus its own share')
+    pr = ctx.func('bandwidth.ConsumptionScheduler.process_scheduled_consumption')
+    pops = [c for c in own_calls(pr.node) if (dotted(c.func) or '') == 'self._tokens_to_scheduled_consumption.pop']
+    rec = pops[0]._parent.targets[0].id if len(pops) == 1 and isinstance(pops[0]._parent, ast.Assign) else None
+    upd = [n for n in own_nodes(pr.node) if isinstance(n, (ast.Assign, ast.AugAssign)) and dotted(n.targets[0] if isinstance(n, ast.Assign) else n.target) == 'self._total_wait']
+    ok = False
+    if len(upd) == 1 and rec is not None and key is not None:
+        v = upd[0].value
+        want = f"self._total_wait - {rec}['{key}']"
+        if isinstance(upd[0], ast.Assign):
+            ok = norm(v) in (f'max({want}, 0)', f'max(0, {want})')
+        else:
+            ok = isinstance(upd[0].op, ast.Sub) and norm(v) == f"{rec}['{key}']"
+    ctx.ob(pr, f"self._total_wait = max(self._total_wait - record[{key!r}], 0) for the popped record", ok,
+           f'releasing a request must give back exactly the share it added; found {norm(upd[0]) if upd else None}')
+    ctx.ob(pr, 'the token record is removed', len(pops) == 1 and norm(pops[0].args[0]) == pr.params[1], 'a released token must no longer count as scheduled')
+    # the stream sleeps the advised time
+    f = ctx.func('bandwidth.BandwidthLimitedStream._consume_through_leaky_bucket')
+    hs = [h for h in own_nodes(f.node) if isinstance(h, ast.ExceptHandler) and h.type is not None and 'RequestExceededException' in norm(h.type)]
+    ctx.need(hs, 'no RequestExceededException handler in the stream')
+    for h in hs:
+        sl = [c for c in ast.walk(h) if isinstance(c, ast.Call) and (dotted(c.func) or '').endswith('.sleep')]
+        ok = len(sl) == 1 and len(sl[0].args) == 1 and norm(sl[0].args[0]) == f'{h.name}.retry_time' and sl[0]._parent in h.body
+        ctx.ob(f, f'sleep({h.name}.retry_time) before re-consuming', ok,
+               'a shorter sleep followed by the retry releases the scheduled request early: the limit is exceeded in proportion to the number of waiting streams')
+    rb = ctx.func('bandwidth.LeakyBucket._raise_request_exceeded_exception')
+    cs = [c for c in own_calls(rb.node) if (dotted(c.func) or '').endswith('schedule_consumption')]
+    ok = len(cs) == 1 and isinstance(cs[0]._parent, ast.Assign) and any(isinstance(n, ast.Raise) and norm(kwarg(n.exc, 'retry_time')) == norm(cs[0]._parent.targets[0]) for n in own_nodes(rb.node) if isinstance(n.exc if isinstance(n, ast.Raise) else None, ast.Call))
+    at = [v for st, v in q.local_defs(rb, 'allocated_time') if isinstance(v, ast.AST)]
+    ok2 = len(at) == 1 and norm(at[0]).replace(' ', '') in ('amt/float(self._max_rate)', 'amt/self._max_rate') and len(cs) == 1 and norm(cs[0].args[2]) == 'allocated_time'
+    ctx.ob(rb, 'retry_time of the exception = the wait returned by the scheduler; share = amt / max_rate', ok and ok2, 'the advised wait must be the scheduled one and a request\'s share its size at the maximum rate')
